@@ -12,4 +12,11 @@ for cls, n in CLSN.items():
     for h, alias in (('h_find_child', 'FIND_CHILD'), ('h_get_child', 'GET_CHILD'), ('h_begin', 'BEGIN'), ('h_last', 'LAST'), ('h_next', 'NEXT'), ('h_prior', 'PRIOR'), ('h_gte', 'GTE'), ('h_lte', 'LTE')):
         job('node.db64.i%d.%s' % (n, h[2:]), ['C02', 'C16'] + (['C01'] if h in ('h_find_child', 'h_get_child') else []), 'u_db', 'proofs/node/read.c', entry=h,
             defines=['CLS=%d' % cls, 'POL=DB64'], roots={a: node_rx(n, '64', 'db') + rx for a, rx in READ.items()}, cfgs=CFG_NODE, thorough_cfgs=ALL_CFGS,
-            unwind={1: 34, 2: 34, 3: 258, 4: 258}[cls], floor=10, cut=(['%s/for_2econd' % a for a in ('BEGIN', 'LAST', 'NEXT', 'PRIOR', 'GTE', 'LTE')] if cls >= 3 else []), timeout=900, under_contract=['basic_inode_%d<db, uint64_t>::%s' % (n, READ[alias].split('\\')[0])])
+            unwind={1: 6, 2: 18, 3: 258, 4: 258}[cls], floor=10, cut=(['%s/for_2econd' % a for a in ('BEGIN', 'LAST', 'NEXT', 'PRIOR', 'GTE', 'LTE')] if cls >= 3 else []), timeout=900, under_contract=['basic_inode_%d<db, uint64_t>::%s' % (n, READ[alias].split('\\')[0])])
+LEAFDEL = {'64': r'^unodb::detail::basic_db_leaf_deleter<unodb::db<unsigned long, .*::operator\(\)'}
+for cls, n in CLSN.items():
+    for h in ('h_add', 'h_remove'):
+        job('node.db64.i%d.%s' % (n, h[2:]), ['C01', 'C10', 'C16'], 'u_db', 'proofs/node/write.c', entry=h, defines=['CLS=%d' % cls, 'POL=DB64'],
+            roots={'ADD': node_rx(n, '64', 'db') + r'add_to_nonfull\(', 'REMOVE': node_rx(n, '64', 'db') + r'remove\(unsigned char'}, stubs={'LEAF_DEL': LEAFDEL['64']},
+            cfgs=CFG_NODE, thorough_cfgs=ALL_CFGS, unwind={1: 6, 2: 18, 3: 258, 4: 258}[cls], unwindset=({'ADD': 8} if cls == 3 else None), floor=10, timeout=900,
+            under_contract=['basic_inode_%d<db, uint64_t>::%s' % (n, 'add_to_nonfull' if h == 'h_add' else 'remove')])
